@@ -7,7 +7,7 @@
 From stdpp Require Export gmap.
 From Coq Require Export ZArith.
 
-Definition sym := N.
+Notation sym := N.
 
 Inductive atom :=
 | AInt (z : Z)
